@@ -123,3 +123,70 @@ func (e *Engine) nameGhostArray(s *State, name string, v Value) Value {
 func (e *Engine) leanInvariants(fr *Frame) bool {
 	return fr.contract != nil && fr.contract.Flags["lean_invariants"] != ""
 }
+
+// freezeHeapsForPatterns: before a quantifier with explicit patterns is rendered, every heap array that is currently a
+// compound term (a chain of stores, possibly behind define-fun names, which the solvers expand) is bound to a fresh constant
+// equal to it. A pattern may not contain ite/and/store sub-terms, and after a few in-place writes the heap term does.
+func (e *Engine) freezeHeapsForPatterns(env *Env) {
+	s := env.s
+	plain := func(t Term) bool {
+		if strings.HasPrefix(t.S, "(") {
+			return false
+		}
+		e.u.mu.Lock()
+		d, ok := e.u.syms[t.S]
+		e.u.mu.Unlock()
+		return !ok || d.body == ""
+	}
+	freeze := func(h map[string]Term) {
+		for _, k := range sortedKeys(h) {
+			t := h[k]
+			if !strings.HasPrefix(t.Sort, "(Array") || plain(t) {
+				continue
+			}
+			c := e.u.Fresh("frz."+k, t.Sort)
+			s.assume(Eq(c, t))
+			h[k] = c
+		}
+	}
+	freeze(s.heap)
+	if env.old != nil && env.old.heap != nil {
+		freeze(env.old.heap)
+	}
+}
+
+// swapPlusInPatterns returns the pattern terms with the two arguments of every binary (+ a b) that has a
+// quantified variable (q_*) as one argument swapped, or nil when nothing changes.
+func swapPlusInPatterns(ts []string) []string {
+	changed := false
+	var out []string
+	var walk func(n *sexp)
+	walk = func(n *sexp) {
+		if n == nil || !n.list {
+			return
+		}
+		for _, k := range n.kids {
+			walk(k)
+		}
+		if len(n.kids) == 3 && !n.kids[0].list && n.kids[0].atom == "+" {
+			a, b := n.kids[1], n.kids[2]
+			isVar := func(x *sexp) bool { return !x.list && strings.HasPrefix(x.atom, "q_") }
+			if isVar(a) != isVar(b) {
+				n.kids[1], n.kids[2] = b, a
+				changed = true
+			}
+		}
+	}
+	for _, t := range ts {
+		sx := sexpParse(t)
+		if sx == nil {
+			return nil
+		}
+		walk(sx)
+		out = append(out, sx.String())
+	}
+	if !changed {
+		return nil
+	}
+	return out
+}
